@@ -409,8 +409,9 @@ def multi_body(case, ctx, tmp):
             dsj["vars"][k]["attrs"] = {}
         specs.append(dsj)
     fns = []
+    stems = rng.sample(['run_ctl', 'run_b', 'run_a', 'exp10', 'exp2', 'zz', 'A1'], len(specs))   # the given order is NOT the sorted order
     for j, s in enumerate(specs):
-        p = os.path.join(tmp, "m%d.nc" % j)
+        p = os.path.join(tmp, "%s.nc" % stems[j])
         ncc.build_dataset(s).write_nc(p, format=fmt)
         fns.append(p)
     singles = [da.read_nc(p) for p in fns]
